@@ -14,8 +14,9 @@ What is modelled, line by line of the code that exists in /repo:
   `pop(uri, None)` and re-raise),
 * `Template.__init__` for a file (`_compile_from_file`): without module directory the *current* content is read
   and compiled, the module is stamped `_modified_time = time.time()` (`codegen.py`); with a module directory the
-  module file of the **URI** is re-used when it exists and its mtime is not older than the source's
-  (then content and stamp are those stored in the module file), otherwise it is regenerated from the current content,
+  module file of the **URI** is re-used when it exists, its mtime is not older than the source's and it was
+  generated from the same source file name (then content and stamp are those stored in the module file),
+  otherwise it is regenerated from the current content,
 * `put_string`, `put_template`, `has_template`,
 * `LRUCache`: `_Item` with a timestamp, `__getitem__` re-stamps, `__setitem__` creates an item (new stamp) or
   replaces the value of an existing item **without** re-stamping, then `_manage_size`; `pop`/`del` are the
@@ -225,22 +226,25 @@ def construct (cfg : Cfg) (s : State) (k : Uri) (f : FileRef) : Except Exc Tmpl 
       | none => regenerate
       | some m =>
         if m.time < file.mtime then regenerate
+        else if moduleChecksSourceName && m.src != f then
+          -- the module is loaded, found to be generated from another file name, and regenerated
+          regenerate
         else
           -- the module file is loaded as it is: content and `_modified_time` are the stored ones
           let t : Tmpl := ⟨s.nextId, k, some f, m.content, m.time⟩
           (.ok t, { s1 with made := s.made ++ [t] })
     else regenerate
 
-/-- `_load(filename, uri)` -/
-def load (cfg : Cfg) (s : State) (k : Uri) (f : FileRef) : Except Exc Tmpl × State :=
-  match get? s.coll k with
-  | some e => (.ok e.val, stampHit s k)            -- second chance (never taken sequentially)
-  | none =>
-    match construct cfg s k f with
-    | (.ok t, s') => (.ok t, setItem cfg s' k t)
-    | (.error e, s') => (.error e, { s' with coll := erase s'.coll k })
+/-- `_load(filename, uri)` after its second-chance read missed: construct, store; on any exception
+`pop(uri, None)` and re-raise -/
+def loadFresh (cfg : Cfg) (s : State) (k : Uri) (f : FileRef) : Except Exc Tmpl × State :=
+  match construct cfg s k f with
+  | (.ok t, s') => (.ok t, setItem cfg s' k t)
+  | (.error e, s') => (.error e, { s' with coll := erase s'.coll k })
 
-/-- `_check(uri, template)` -/
+/-- `_check(uri, template)`.  On the stale path the code pops `uri` and calls `_load`; `_load`'s second-chance
+read of the key that was just popped misses (sequentially), so `_load` continues with the construction:
+`loadFresh`. -/
 def check (cfg : Cfg) (s : State) (k : Uri) (t : Tmpl) : Except Exc Tmpl × State :=
   match t.file with
   | none => (.ok t, s)
@@ -250,9 +254,17 @@ def check (cfg : Cfg) (s : State) (k : Uri) (t : Tmpl) : Except Exc Tmpl × Stat
     | some file =>
       if keepCached t.stamp file.mtime then (.ok t, s)
       else
-        match load cfg { s with coll := erase s.coll k } k f with
+        match loadFresh cfg { s with coll := erase s.coll k } k f with
         | (.error .os, s') => (.error .lookup, { s' with coll := erase s'.coll k })
         | r => r
+
+/-- `_load(filename, uri)`: second-chance read of the collection (a hit is never taken sequentially; it re-stamps
+the item and – as the code now stands – is returned through `_check` when `filesystem_checks`), else `loadFresh` -/
+def load (cfg : Cfg) (s : State) (k : Uri) (f : FileRef) : Except Exc Tmpl × State :=
+  match get? s.coll k with
+  | some e =>
+    if secondChanceChecked && cfg.checks then check cfg (stampHit s k) k e.val else (.ok e.val, stampHit s k)
+  | none => loadFresh cfg s k f
 
 /-- first directory (in configuration order) in which `os.path.isfile(dir/uri)` -/
 def firstDir (n : Nat) (fs : FileRef → Option File) (k : Uri) : Option Dir :=
